@@ -332,6 +332,31 @@ func ruleR01_3(c *Check) {
 		})
 		r.Check(true, f, "search loop examined for early exits", nil, "")
 	}
+	// DB.get: after the memtables the levels are always searched — a success return is the exact
+	// match inside the loop or the result of lc.get (in managed mode, and after a GC write-back, a
+	// memtable version need not be newer than what the levels hold)
+	{
+		f := w.F("badger.DB.get")
+		lcget := w.Func("badger.levelsController.get")
+		var k keyer
+		for _, e := range f.allExits() {
+			rs, ok := e.Node.(*ast.ReturnStmt)
+			if !ok || len(rs.Results) == 0 {
+				continue
+			}
+			if len(rs.Results) == 1 && w.isCallTo(rs.Results[0], lcget) {
+				r.Check(true, f, k.key("levels searched after the memtables", w, rs), rs, "")
+				continue
+			}
+			if len(rs.Results) == 2 && !isNil(rs.Results[1]) {
+				continue // error return
+			}
+			if insideLoop(w, f, rs) {
+				continue // the exact-match return, checked above
+			}
+			r.Check(false, f, k.key("levels searched after the memtables", w, rs), rs, "DB.get returns a memtable result without searching the levels: a version found in a memtable is not necessarily newer than what the levels hold (managed timestamps, GC write-backs)")
+		}
+	}
 	// source order
 	gm := w.F("badger.DB.getMemTables")
 	mt, imm := w.Field("badger.DB.mt"), w.Field("badger.DB.imm")
